@@ -58,6 +58,9 @@ def states(tier, seed):
         if symset and be != 0.0:
             continue
         st.append(dict(part="wrap", sym=symset, n=n, comp=comp, alpha=al, beta=be, fam=fam))
+        if n <= 2 and be == 0.0:
+            # the wrappers with a user-specified reference area (option of both the native point and AeroFuncsGroup)
+            st.append(dict(part="wrap", sym=symset, n=n, comp=comp, alpha=al, beta=be, usr=True, fam=fam))
     # two structural surfaces in one aerostructural point, the second one very far away (no aerodynamic interaction): every
     # per-surface result equals that of the surface analysed alone - catches any mix-up between the surfaces in the group wiring
     for pair, sym in itertools.product(["tube+tube_same", "tube+wingbox", "wingbox+tube_same", "tube+tube_right"], [True, False]):
@@ -317,7 +320,8 @@ def part_wrap(s):
     surfs = mk_surfs(s["sym"], s["n"], s["fam"], visc=True)
     M = 0.6
     fl = dict(v=60.0, alpha=s["alpha"], beta=s["beta"], rho=1.1, Mach_number=M, re=1.0e6, cg=[0.4, 0.0 if s["sym"] else 0.15, 0.1])
-    p0 = builders.build_aero(surfs, fl, compressible=s["comp"])
+    usr = bool(s.get("usr"))
+    p0 = builders.build_aero(surfs, fl, compressible=s["comp"], user_sref=37.7 if usr else None)
     p0.run_model()
     FC = V.Aerodynamics.FlowConditions
     p = om.Problem(reports=False)
@@ -331,17 +335,19 @@ def part_wrap(s):
     ivc.add_output("v", val=60.0, units="m/s")
     ivc.add_output("rho", val=1.1, units="kg/m**3")
     ivc.add_output("cg", val=fl["cg"], units="m")
+    if usr:
+        ivc.add_output("S_ref_total", val=37.7, units="m**2")
     p.model.add_subsystem("ivc", ivc, promotes=["*"])
     p.model.add_subsystem("demux", DemuxSurfaceMesh(surfaces=surfs), promotes=["*"])
     p.model.add_subsystem("solver", AeroSolverGroup(surfaces=surfs, compressible=s["comp"]), promotes=["*"])
     p.model.add_subsystem("mux", MuxSurfaceForces(surfaces=surfs), promotes=["*"])
-    p.model.add_subsystem("funcs", AeroFuncsGroup(surfaces=surfs, write_solution=False), promotes=["*"])
+    p.model.add_subsystem("funcs", AeroFuncsGroup(surfaces=surfs, write_solution=False, user_specified_Sref=usr), promotes=["*"])
     p.setup()
     for sf in surfs:
         p.set_val("%s.t_over_c" % sf["name"], 0.12)
     p.run_model()
     viol, val = [], 0
-    wh = dict(part="wrap", comp=s["comp"], n=s["n"])
+    wh = dict(part="wrap", comp=s["comp"], n=s["n"], user_sref=usr)
     Fsc = max(max(np.abs(p0["ap.aero_states.%s_sec_forces" % sf["name"]]).max() for sf in surfs), gen.force_floor(1.1, 60.0, [sf["mesh"] for sf in surfs]))
 
     def cmp(name, a, b, sc):
